@@ -71,6 +71,34 @@ CLAIMS = {
     },
 }
 
+CLAIMS['C01'] = {
+    'text': 'Necessary conditions of completeness decided on the MIR: the abstract hash transcripts of T and U agree between '
+            'the encapsulating side and every opening side per flavour and H/J/G digests are shared; Right::from_point sorts '
+            'before encoding, Right has only canonical constructors and both sides take identifiers from Attribute.id; the '
+            'opening loops cover revisions x encapsulations x secrets untruncated, are left only by exhaustion or return, and '
+            'Ok(None) only follows exhaustion of the outermost iterator. Partial: the cover relation and the algebra are not decided.',
+    'note': TB + 'Assumes slice::sort_unstable sorts and SHA3 is deterministic.',
+    'technique': 'hash-transcript abstraction with sibling agreement + who-may-construct + loop-exit analysis on MIR',
+}
+CLAIMS['C07'] = {
+    'text': 'Every component of an XEnc is bound into acceptance: the transcripts of T, U, H, J on all five encapsulating / opening '
+            'functions equal the table the scheme defines (so consistently dropping an input everywhere is reported), digests are '
+            'wired (H_hash gets T, J_hash gets U, K2 = Some(ML-KEM secret) exactly in hybrid code); every flavour tag read accepts '
+            'exactly {0,1} and anything else reaches Err; AE::decrypt / EncryptedHeader::decrypt hand out data only from '
+            'Dem::decrypt on nonce||body split at one constant with the caller\'s authentication_data on both sides.',
+    'note': TB + 'Assumes SHA3 collision resistance and AES-GCM authenticity; byte-level canonicity of encodings lives in dependencies.',
+    'technique': 'hash-transcript abstraction with required-coverage table + MIR dominance + identity-form provenance',
+}
+CLAIMS['C13'] = {
+    'text': 'For all 24 impl Serializable: write and read abstracted to ordered wire-event lists (Leb/Item/Array/Vec with loop depth, '
+            'closures and helpers inlined, per variant / tag / remaining-length branch) are equal including tag constants; every '
+            'field is read by write and (if variable-size) by length; every field and tuple component built by read derives from '
+            'deserializer input (data or control); every byte count returned by a Serializer call reaches the returned total and '
+            'the accumulator is never overwritten. Partial: behavioural interchangeability and pinned-release vectors not decided.',
+    'note': TB + 'Assumes the Serializer/Deserializer primitives of cosmian_crypto_core are mutually inverse.',
+    'technique': 'wire-grammar abstraction of sibling implementations (write/read/length) over MIR + forward dataflow',
+}
+
 NOT_APPLICABLE = {}
 
 NOTES = ('Static analysis only: every check compiles the current working tree of /repo under a rustc_private driver, exports '
